@@ -36,4 +36,36 @@ def gated : List Step → Bool
   | .read _ :: rest => gated rest
   | .mutate _ :: _ => false
 
+/-! ### recording: staged operations and the commit
+
+`…Raw` calls of a bug append an operation to the bug's staging area; `Commit` writes the staging
+area to git; `NewRaw` creates and commits a bug in one call; `StoreData` writes a blob at once. -/
+
+/-- is this mutating call one that writes to git by itself? -/
+def selfCommitting (n : String) : Bool := n == "NewRaw" || n == "StoreData"
+
+structure Rec where
+  staged : List String := []
+  stored : List String := []
+deriving DecidableEq, Repr
+
+def recStep (σ : Rec) (n : String) : Rec :=
+  if n == "Commit" then { staged := [], stored := σ.stored ++ σ.staged }
+  else if selfCommitting n then { σ with stored := σ.stored ++ [n] }
+  else { σ with staged := σ.staged ++ [n] }
+
+/-- the effect of the mutating calls of a program that runs to its end -/
+def record (muts : List String) (σ : Rec) : Rec := muts.foldl recStep σ
+
+/-- every staged operation is followed by a `Commit`: scanning from the end, a `Commit` is met
+before any staging call -/
+def commitsLast : List String → Bool
+  | [] => true
+  | n :: rest =>
+    if n == "Commit" then commitsLast rest
+    else if selfCommitting n then commitsLast rest
+    else rest.contains "Commit" && commitsLast rest
+
+def requested (muts : List String) : List String := muts.filter (fun n => n != "Commit")
+
 end GitBugModel.Gate
